@@ -389,6 +389,12 @@ class Orchestrator:  # thailint: ignore[srp]
         """Safely check a rule, returning empty list on error."""
         try:
             return rule.check(context)
+        except UnicodeError:
+            # e.g. a file name with an undecodable byte (surrogate-escaped) that a rule cannot
+            # store or encode: a failure of this rule on this file, not a configuration error
+            # (UnicodeError is a ValueError and would otherwise abort the whole run)
+            logger.exception("Rule %s failed on %s", rule.rule_id, context.file_path)
+            return []
         except ValueError:
             # Re-raise configuration validation errors (these are user-facing)
             raise
